@@ -728,6 +728,20 @@ pub fn run(ctx: &Ctx, sh: &mut Shard) {
             1 => {
                 let g = *r.pick(&[3i64, 4, 6, 8]);
                 let a = gen_any(&mut r, g);
+                // one geometry in three re-spelt (other type, permuted members, an EMPTY member somewhere, ...): the documented
+                // origin (centre of the bounding box of all coordinates, centroid) does not move
+                let a = if r.chance(1, 3) {
+                    let alts = respellings(&mut r, &a);
+                    if alts.is_empty() {
+                        a
+                    } else {
+                        let i = r.below(alts.len() as u64) as usize;
+                        sh.class(&format!("trait:spelling:{}", alts[i].0));
+                        alts[i].1.clone()
+                    }
+                } else {
+                    a
+                };
                 let lat = if r.chance(1, 2) { Lat::ID } else { Lat { ox: r.range(-50, 50), oy: r.range(-50, 50), sh: r.range(-3, 3) as i32, shear: 0 } };
                 let op = rand_top(&mut r);
                 trait_case(sh, &a, &lat, &op, false);
